@@ -1272,6 +1272,14 @@ func (f *VFSFile) buildIndexMap(ctx context.Context, infos []*ltx.FileInfo) (map
 		commit = hdr.Commit
 	}
 
+	// Remove pages beyond the final database size. The database may have
+	// shrunk (e.g. via VACUUM) after an earlier file in the plan was written.
+	for pgno := range index {
+		if pgno > commit {
+			delete(index, pgno)
+		}
+	}
+
 	f.mu.Lock()
 	f.commit = commit
 	f.mu.Unlock()
